@@ -17,6 +17,10 @@ func runSched(cmd string, args []string) error {
 		return runStress(args)
 	}
 
+	if cmd == "schedreplay" {
+		return runSchedReplay(args)
+	}
+
 	if cmd != "sched" {
 		return fmt.Errorf("unknown command %q", cmd)
 	}
@@ -89,4 +93,43 @@ func runStress(args []string) error {
 	fmt.Println(string(b))
 
 	return nil
+}
+
+// runSchedReplay re-executes one recorded history: the program under the recorded schedule (or free running,
+// repeatedly, when the history was recorded without a schedule) and writes the histories observed.
+func runSchedReplay(args []string) error {
+	fl := flag.NewFlagSet("schedreplay", flag.ExitOnError)
+	in := fl.String("history", "", "recorded history (json)")
+	out := fl.String("out", "", "histories observed (ndjson)")
+	runs := fl.Int("runs", 200, "free-running executions when there is no schedule")
+	names := fl.String("names", "a,b,d,e,c,l", "names probed")
+	_ = fl.Parse(args)
+
+	b, err := os.ReadFile(*in)
+	if err != nil {
+		return err
+	}
+
+	var h drv.History
+	if err := json.Unmarshal(b, &h); err != nil {
+		return err
+	}
+
+	of, err := os.Create(*out)
+	if err != nil {
+		return err
+	}
+	defer of.Close()
+
+	f, err := drv.NewFactory(h.Fs)
+	if err != nil {
+		return err
+	}
+
+	hs, err := drv.ReplayHistory(f, &h, strings.Split(*names, ","), *runs)
+	if err != nil {
+		return err
+	}
+
+	return drv.WriteHistories(of, hs, 1)
 }
